@@ -241,6 +241,44 @@ func floatKey(i int) float64 {
 	return float64(i-2) * 0.75
 }
 
+// TK is a string-kinded key type that writes and reads itself as JSON text
+// through encoding.TextMarshaler / TextUnmarshaler: as a map key it appears in
+// documents as "tk:<text>", and a member name without that prefix decodes to
+// the key "raw:<name>". Whoever decodes object keys by looking at the KIND of
+// the key type instead of letting encoding/json do it gets other keys.
+type TK string
+
+func (t TK) MarshalText() ([]byte, error) { return []byte("tk:" + string(t)), nil }
+
+func (t *TK) UnmarshalText(b []byte) error {
+	if strings.HasPrefix(string(b), "tk:") {
+		*t = TK(b[3:])
+	} else {
+		*t = TK("raw:" + string(b))
+	}
+	return nil
+}
+
+var tkCmps = []NamedCmp[TK]{
+	{"natural", func(a, b TK) int { return strings.Compare(string(a), string(b)) }},
+	{"reversed", func(a, b TK) int { return strings.Compare(string(b), string(a)) }},
+	{"caseless", func(a, b TK) int { return strings.Compare(strings.ToLower(string(a)), strings.ToLower(string(b))) }},
+	{"natural-unnormalised", func(a, b TK) int { return scale(strings.Compare(string(a), string(b)), uint64(len(a)*31+len(b))) }},
+}
+
+func TKDom(n int) *Dom[TK] {
+	d := &Dom[TK]{Name: "text-key", Cmps: tkCmps, Fmt: func(v TK) string { return fmt.Sprintf("%q", string(v)) }}
+	if n > len(strAlphabet) {
+		n = len(strAlphabet)
+	}
+	for _, s := range strAlphabet[:n] {
+		d.Alpha = append(d.Alpha, TK(s))
+	}
+	d.Probe = []TK{"\x00", "a0", "aa", "zzz", "~", "tk:", "raw:a"}
+	d.Wide = func(r *core.R) TK { return TK(StrDom(4).Wide(r)) }
+	return d
+}
+
 // SK is a struct element/key type (comparable, no natural order): generic
 // code must not depend on the element being a built-in scalar.
 type SK struct {
